@@ -227,6 +227,8 @@ func init() {
 		m := strings.Join(h.rn.Call("open", c.A["vd"], c.A["keys"], c.A["senders"], hx(input)), " ")
 		if strings.Contains(m, "Unmodelled") {
 			h.res.Unmodelled++
+		} else if decodeOrderOnly(m, got) {
+			h.res.Unmodelled++
 		} else if m != got {
 			fs = append(fs, Failure{Kind: "correspondence", Key: "open-stream", Desc: fmt.Sprintf("model %.300s | impl %.300s", m, got)})
 		}
